@@ -189,4 +189,34 @@ def written (kind : FieldKind) (keyOf : E → Bytes) : List (List E) → List (L
       (b :: r.1, r.2)
     else ([], true)
 
+/-! ### What the plugin lets into the store, and whether `writeDump` can pack it -/
+
+/-- miekg `Msg.Pack`: an rcode above 15 needs an OPT record for its upper bits
+(`dns: bad extended rcode` otherwise). -/
+def packs (rcode : Nat) (hasOpt : Bool) : Bool := decide (rcode < 16) || hasOpt
+
+/-- `saveRespToCache`: a response is stored only if an arm of `switch r.Rcode`
+gives it a ttl; `maxArm` is the largest rcode an arm names (`none`: a default
+arm, every rcode may be stored). -/
+def admitted (maxArm : Option Nat) (rcode : Nat) : Prop :=
+  match maxArm with
+  | none => True
+  | some m => rcode ≤ m
+
+/-- `writeDump` packs every stored message - stored without OPT (`copyNoOpt`) -
+and gives up at the first that does not pack. `true` = the dump goes through. -/
+def dumpPacks (rcodes : List Nat) : Bool := rcodes.all (fun rc => packs rc false)
+
+/-- `POST /load_dump`: `readDump` on the request body; a handler that caps the
+body at `l` octets hands a longer dump over as its first `l` octets followed by
+a read error. -/
+def apiLoad (dec : Bytes → Option (List E)) (fuel : Nat) (limit : Option Nat) (p : Bytes) : List E × Bool :=
+  match limit with
+  | none => load dec fuel p true
+  | some l => if p.length ≤ l then load dec fuel p true else load dec fuel (p.take l) false
+
+/-- The cap of the handler as the regenerated fact describes it. -/
+def apiLimit (wholeBody : Option Bool) (l : Nat) : Option Nat :=
+  if wholeBody = some true then none else some l
+
 end Model.C19
